@@ -78,3 +78,35 @@ Definition batch_form (b : batch) : batch_mode :=
 Definition arity_raisers : list string := ["_create_cache"%string].
 (* _create_cache checks the arity of initial assignments, derived, reactions, readouts before it sorts *)
 Definition arity_checked_before_sort : bool := true.
+(* do containers cross the API as values?  Aliased = the model / the caller keeps working on the SAME object *)
+Inductive alias_mode := Aliased | Copied | AliasUnknown.
+Inductive getter :=
+| G_get_parameter_values
+| G_get_initial_conditions.
+Definition getter_form (g : getter) : alias_mode :=
+  match g with
+  | G_get_parameter_values => Copied
+  | G_get_initial_conditions => Copied
+  end.
+(* the mutators that are given args= / outputs= / stoichiometries= containers (for add_/update_reaction the recognised
+   texts include the construction of an own stoichiometry dict) *)
+Inductive argsite :=
+| A_add_derived
+| A_update_derived
+| A_add_reaction
+| A_update_reaction
+| A_add_readout
+| A_add_surrogate
+| A_update_surrogate.
+Definition input_form (a : argsite) : alias_mode :=
+  match a with
+  | A_add_derived => Copied
+  | A_update_derived => Copied
+  | A_add_reaction => Copied
+  | A_update_reaction => Copied
+  | A_add_readout => Copied
+  | A_add_surrogate => Copied
+  | A_update_surrogate => Copied
+  end.
+(* get_stoichiometries / get_stoichiometries_of_variable fill in the computed coefficients on a deep copy of the cached table *)
+Definition stoich_queries_copy : bool := true.
